@@ -96,6 +96,17 @@ def run_tasks(prop, tasks, nworkers=14, timeout=60.0, env_extra=None, cwd=None, 
     """Run batches on workers.  Returns (results, meta).  `deadline` = absolute
     time after which no new batch is started (truncation is reported in meta)."""
     q = queue.Queue()
+    if deadline is not None:
+        # under a time cap the streams are served in proportion (a loaded machine then thins every stream a little
+        # instead of dropping the ones planned last: that is how a seeded change went unseen in one run)
+        per = {}
+        for t in tasks:
+            per.setdefault(t.get("stream"), []).append(t)
+        order = []
+        for st, ts in per.items():
+            for k, t in enumerate(ts):
+                order.append(((k + 0.5) / len(ts), len(order), t))
+        tasks = [t for _, _, t in sorted(order, key=lambda x: (x[0], x[1]))]
     for t in tasks:
         q.put(t)
     results = []
